@@ -323,4 +323,6 @@ def tval_rule(ctx, rep, rid="TVAL"):
     rep.count("rule functions validated against the grammar text", nrules)
     rep.count("matches, calls and decisions compared", nitems)
     rep.extra["tval_not_validated"] = skipped
+    rep.extra["programs"] = nrules
+    rep.extra["disagreements_checked"] = nitems
     rep.floor(rid, 300, "rule functions")
